@@ -42,10 +42,16 @@ Pair ==
      IN /\ viol' = viol \cup (IF ok THEN {} ELSE {[prop |-> "C07", clause |-> "pipelined_requests_served_in_turn", trace |-> Ev.trace, step |-> Ev.seq,
                                                      sit |-> [balance |-> Ev.balance, a |-> Ev.a, b |-> Ev.b]]})
         /\ UNCHANGED <<pre, div>>
+\* a request on a connection the peer kept open and left quiet for a while is answered like any other
+Idle ==
+  /\ Ev.action = "idle"
+  /\ viol' = viol \cup (IF Ev.first /\ Ev.second THEN {} ELSE {[prop |-> "C07", clause |-> "answered", trace |-> Ev.trace, step |-> Ev.seq,
+                                                                   sit |-> [action |-> "debit", type |-> "update", known |-> TRUE, after_quiet_ms |-> Ev.quiet_ms]]})
+  /\ UNCHANGED <<pre, div>>
 Finish == /\ l = Len(Trace) + 1
           /\ PrintT(<<"VF-RESULT", ToJson([consumed |-> l - 1, viol |-> viol, div |-> div])>>)
           /\ l' = l + 1 /\ UNCHANGED <<pre, viol, div>>
 TInit == l = 1 /\ pre = <<>> /\ viol = {} /\ div = {}
-TNext == (l <= Len(Trace) /\ l' = l + 1 /\ (Reset \/ Step \/ Pair)) \/ Finish
+TNext == (l <= Len(Trace) /\ l' = l + 1 /\ (Reset \/ Step \/ Pair \/ Idle)) \/ Finish
 TSpec == TInit /\ [][TNext]_tvars
 =============================================================================
